@@ -63,7 +63,12 @@ def check_file(ctx, r, idx, ml, bd_path):
 			cutsn = sorted(r.sample(range(1, n), min(n - 1, r.randint(1, 3))))
 			done = 0
 			for k in cutsn + [n]:
-				ddf.append_all(objs[done:k]) if r.random() < 0.6 else [ddf.append_msg(o) for o in objs[done:k]]
+				if r.random() < 0.6:
+					# (any iterable of messages will do: a list, an iterator over one, a generator)
+					part = objs[done:k]
+					ddf.append_all(part if r.random() < 0.6 else iter(part) if r.random() < 0.5 else (o for o in part))
+				else:
+					[ddf.append_msg(o) for o in objs[done:k]]
 				done = k
 				if k == n:
 					break
@@ -159,6 +164,11 @@ def check_file(ctx, r, idx, ml, bd_path):
 				ctx.count("slices_compared")
 				s0 = skip or 0
 				want = ml[s0:] if count is None else ml[s0:s0 + count]
+				if not want and g is False and s0 <= len(ml):
+					# a skip of at most the number of stored messages is inside the capture: the slice is empty, not an error
+					ctx.violation("read", dict(w, skip = skip, count = count),
+						what = "parse_all(skip=%r, count=%r) reports a range error for a capture of %d messages (the slice is empty)" % (skip, count, len(ml)))
+					return
 				if not want and (g is False or g == []):
 					continue
 				err = same_list(ctx, g, want, "parse_all(skip=%r, count=%r)" % (skip, count), w)
